@@ -481,6 +481,11 @@ impl Command for EndFunctionCommand {
                 {
                     let next_line = call_info.call_line + 1;
 
+                    // no value is returned, same as a return command without a value
+                    if let Some(ref name) = call_info.output_variable {
+                        context.variables.remove(name);
+                    }
+
                     if call_info.scoped {
                         match scope::pop(context.variables, context.state, &vec![]) {
                             Err(error) => return CommandResult::Error(error),
